@@ -3,7 +3,7 @@ LE = "__CPROVER_loop_entry"
 CT = "tinyjambu_aead_check_tag"
 
 LOOP_TAG = {
-    "fn": CT, "idx": 0, "line": r"while \(size > 0\)",
+    "fn": CT, "idx": 0, "line": r"size > 0",
     "assigns": "accum, tag1, tag2, size",
     "inv": ("0 <= accum && accum <= 255 && size <= LE(size) && tag1 == LE(tag1) + (LE(size) - size) && "
             "tag2 == LE(tag2) + (LE(size) - size) && "
@@ -15,7 +15,7 @@ LOOP_TAG = {
 
 def loop_clear(idx):
     return {
-        "fn": CT, "idx": idx, "line": r"while \(plaintext_len > 0\)",
+        "fn": CT, "idx": idx, "line": r"plaintext_len > 0",
         "assigns": "plaintext, plaintext_len, __CPROVER_object_whole(plaintext)",
         "inv": ("plaintext_len <= LE(plaintext_len) && plaintext == LE(plaintext) + (LE(plaintext_len) - plaintext_len) && "
                 "(accum == 0 || accum == -1) && "
@@ -45,7 +45,7 @@ JOBS = [
         "name": "util.check_tag.size8",
         "files": ["harness/h_check_tag8.c", "repo:src/backend/tinyjambu-util.c"],
         "functions": ["tinyjambu_aead_check_tag"],
-        "pre_unwind": [(CT, 0, r"while \(size > 0\)", 9)],
+        "pre_unwind": [(CT, 0, r"size > 0", 9)],
         "unwind": 9,
         "loops": [loop_clear(0)],
         "props": ["C03", "C04", "C06"],
